@@ -10,7 +10,7 @@ TIERS = {
     # gen: generated knotted structures; shards: interpreters per seed; max_comp: largest conflict component for
     # which the factorial enumeration behind all_dot_brackets is requested on corpus structures
     "quick":    dict(gen=120, maps=60, shards=3, max_comp=7, mc_required="MC_Determinism_Required.cfg"),
-    "thorough": dict(gen=1200, maps=800, shards=4, max_comp=9, mc_required="MC_Determinism_Required_T.cfg"),
+    "thorough": dict(gen=1200, maps=800, shards=8, max_comp=9, mc_required="MC_Determinism_Required_T.cfg"),
 }
 
 
@@ -19,12 +19,14 @@ def tasks_for(tier):
     tasks = []
     for path in det.corpus(tier):
         name = os.path.basename(path)
-        w = max(1, os.path.getsize(path) // 20000)
-        tasks.append({"kind": "file", "name": name, "path": path, "max_comp": t["max_comp"], "weight": 4 * w})
-        tasks.append({"kind": "v2", "name": name, "path": path, "weight": 2 * w})
+        # estimated seconds per repetition (only used to balance the shards)
+        size = os.path.getsize(path) * (5 if name.endswith(".gz") else 1)
+        tasks.append({"kind": "file", "name": name, "path": path, "max_comp": t["max_comp"],
+                      "weight": 0.3 + size / 2e5 + (25 if name.startswith("1gid") else 0)})
+        tasks.append({"kind": "v2", "name": name, "path": path, "weight": 0.2 + size / 1.5e5})
     gen = det.generated_cases(t["gen"], lib.seed())
     for g in gen:
-        g["weight"] = 1
+        g["weight"] = 0.03
     # Mapping2D3D with generated conflicting pair lists on a carrier structure, one batch per shard
     lists = det.pairlist_cases(t["maps"], lib.seed())
     carrier = os.path.join(lib.REPO, "tests", "1ehz-assembly-1.cif")
@@ -32,7 +34,7 @@ def tasks_for(tier):
     for k in range(nb):
         part = lists[k::nb]
         if part:
-            tasks.append({"kind": "map", "name": f"maps-{k}", "path": carrier, "lists": part, "weight": len(part) // 4 + 1})
+            tasks.append({"kind": "map", "name": f"maps-{k}", "path": carrier, "lists": part, "weight": 0.2 + 0.06 * len(part)})
     return tasks + gen, gen + lists
 
 
